@@ -19,7 +19,7 @@ ID = "C13"
 MANIFEST = {
     "category": "exploration",
     "text": "Generated-input search against a reference model: deep AHBs (1-3 root groups, nesting depth <= 2/3, up to 40/120 nodes, segments with free-text and value-pool data elements, every node carrying a valid AHB expression of a documented form over a small key pool incl. several modal marks, packages, hints, format constraints) x content evaluation results incl. UNKNOWN x both soll flags. validate_deep_anwendungshandbuch (and validate_segment_level on drawn sub-trees, and validate_segment_group / validate_segment below an explicitly given required / optional / forbidden parent status; a third of the cases additionally validate twice, with different data, on one long-lived set of the shipped ContentEvaluationResult based evaluators) must return exactly the model's sequence of discriminators - each node once, in document order, nothing below a forbidden node - with the model's status for every group, segment and free-text element (incl. FILLED/EMPTY), or raise NotImplementedError exactly when the model meets an undetermined MUSS/prefix node. In half of the cases a third of the data elements have no discriminator (None) or share one: 'once and in order' is judged by position. Stage wide-groups (enumerated): one group with 66-80 (thorough: up to 260) direct children against the reference model. Half of the trees carry maus' optional ahb_line_index on groups and segments, not increasing along the document.",
-    "note": "Trusted: the reference model in vlib/vtree.py (own status, parent table, traversal) and the reference evaluator. The status of value-pool elements is left to C17; here they only have to appear once at their place. Discriminators are unique paths. Process configuration by shard (vlib/sut.py; recorded in replay files): plain / parse caches preheated beyond their size / warnings attributed to ahbicht raised as errors / logging fully enabled with every record rendered; one event loop per process or a new one per call; five process time zones; the hash seed is the shard number; namesakes of ahbicht's marshmallow schema classes are registered.",
+    "note": "Trusted: the reference model in vlib/vtree.py (own status, parent table, traversal) and the reference evaluator. The status of value-pool elements is left to C17; here they only have to appear once at their place. Discriminators are unique paths. Process configuration by shard (vlib/sut.py; recorded in replay files): plain / parse caches preheated beyond their size / warnings attributed to ahbicht raised as errors / logging fully enabled with every record rendered; one event loop per process or a new one per call; five process time zones; the hash seed is the shard number; namesakes of ahbicht's marshmallow schema classes are registered. Every registry of evaluators / providers / resolvers that the harness builds (sut.configure) also holds one of each kind that names no EDIFACT format and no format version; these must never be asked.",
     "technique": "property-based testing against a pure reference model of the validation recursion (model-based oracle)",
 }
 LEVEL = "exploration"
